@@ -860,6 +860,10 @@ def values_eq(vm, ty, x, y):
     if is_sym(x) or is_sym(y):
         r = z3.simplify(x == y); return True if z3.is_true(r) else False if z3.is_false(r) else r
     if isinstance(x, RcVal): return values_eq(vm, ta[0] if ta else '', Ref(x.box.cell), Ref(y.box.cell))
+    if isinstance(x, Adt) and x.ty == 'Cow' and isinstance(y, Adt) and y.ty == 'Cow':
+        # Cow compares what it points to: Owned(v) == Borrowed(&v)
+        inner = [t for t in ta if not t.startswith("'")]
+        return values_eq(vm, inner[-1] if inner else '', x.fields[0], y.fields[0])
     if head == 'Box': return values_eq(vm, ta[0], vm.box_ptr(x), vm.box_ptr(y))
     if isinstance(x, Adt) and x.ty in ('Vec', 'VecDeque') or isinstance(x, (HList, SliceRef)):
         xs, ys = list_items(vm, x), list_items(vm, y)
